@@ -55,7 +55,9 @@ T = {
  "C06": ("proof", "DESIGN.md §5 C06", "csrdec",
          "Coq theorems over a model of csr.Decoder and window_patterns(): the bit-level pattern matches exactly the window's aligned span; exactly "
          "one subordinate is strobed (the one whose span contains the address) with low address bits, data and strobes unchanged; read mux; nested "
-         "decoders compose. Tied on real decoder trees, every root address.",
+         "decoders compose; a tree of decoders over multiplexers gives every register exactly the strobes, read data and (at its write strobe) "
+         "write data of the same register on one multiplexer at the addresses all_resources() reports, incl. C04/C05 atomicity at root addresses. "
+         "Tied on real decoder trees, every root address.",
          "Window list (starts aligned, disjoint) is a hypothesis here, proved for the allocator in C02.",
          "machine-checked proof in Coq (bit-level pattern lemma, routing by case analysis, induction over decoder trees) + correspondence"),
  "C07": ("proof", "DESIGN.md §5 C07", "wbdec",
